@@ -167,7 +167,11 @@ template <class AMG> LevelInfo level_info(const AMG &a) {
 // The predicate re-derives the condition from the level matrices with the library's own public aggregation routine
 // (eps_strong is halved after every level as in the coarsening object): an aggregate c is degenerate when
 // max_i |(A_f P_tent)(i,c)| <= 1e-12 * max_{i in c} a_ii.  Returns an empty string when no level is degenerate.
-template <class AMG> std::string emin_degenerate(const AMG &a, double eps_strong) {
+// residue_only: report only the class that is still open after the repair a58f297 in /repo (exact zeros are guarded there:
+// omega := 0 for a vanishing denominator, no smoothing for a vanishing filtered diagonal): an aggregate whose column of
+// A_f P_tent consists of non-zero ROUNDING RESIDUES (|.| <= 1e-12 max a_ii).  Its omega is still a quotient of residues,
+// i.e. an arbitrary, possibly huge number, and P / R (computed separately) differ by O(1): known finding F-emin-residue.
+template <class AMG> std::string emin_degenerate(const AMG &a, double eps_strong, bool residue_only = false) {
     std::string why; float eps = static_cast<float>(eps_strong); int lvl = 0;
     amgcl_verif::access::for_levels(a, [&](size_t, const amgcl::backend::crs<double> *A, bool, bool, bool hasP) {
         if (!A || !hasP || !why.empty()) { ++lvl; return; }
@@ -194,10 +198,10 @@ template <class AMG> std::string emin_degenerate(const AMG &a, double eps_strong
             for (auto &kv : acc) colmax[kv.first] = std::max(colmax[kv.first], std::abs(kv.second));
         }
         for (size_t cidx = 0; cidx < nc && why.empty(); ++cidx)
-            if (colmax[cidx] <= 1e-12 * diamax[cidx]) { std::ostringstream os; os << "level " << lvl << ": aggregate " << cidx << " is an isolated zero-row-sum block of the filtered matrix, max|A_f P_tent(:,c)| = " << colmax[cidx] << " (omega = 0/0)"; why = os.str(); }
+            if (colmax[cidx] <= 1e-12 * diamax[cidx] && !(residue_only && colmax[cidx] == 0)) { std::ostringstream os; os << "level " << lvl << ": aggregate " << cidx << " is an isolated zero-row-sum block of the filtered matrix, max|A_f P_tent(:,c)| = " << colmax[cidx] << " (omega = 0/0)"; why = os.str(); }
         // (b) a vanishing or negative filtered diagonal that is actually inverted: the row belongs to an aggregate or its
         // column is referenced by a strong entry of another row (possible for non-symmetric or non-M coarse operators only)
-        if (why.empty()) {
+        if (why.empty() && !residue_only) {
             std::vector<char> referenced(A->nrows, 0);
             for (size_t i = 0; i < A->nrows; ++i) for (ptrdiff_t j = A->ptr[i]; j < A->ptr[i + 1]; ++j) if (static_cast<size_t>(A->col[j]) != i && strong[j]) referenced[A->col[j]] = 1;
             for (size_t i = 0; i < A->nrows && why.empty(); ++i) {
